@@ -95,7 +95,7 @@ def normalize_ends(a, min_val, max_val, result):
             and forall(range(len(a)), lambda i: implies(is_min(a, i), eq(result[i], min_val)) and implies(is_max(a, i), eq(result[i], max_val))))
 
 
-@ensures(NORMALIZE, export=False)
+@ensures(NORMALIZE)
 def normalize_order(a, min_val, max_val, result):
     """increasing map for min_val < max_val: order is preserved"""
     return implies(min_val < max_val,
